@@ -23,7 +23,9 @@ CONSTANTS N,        \* number of parties (0..N-1)
           Honest,   \* set of honest parties
           FixF3,    \* TRUE: a tag is accepted (delivered or buffered) at most once (repaired code);
                     \* FALSE: pinned behaviour, every valid r-answer is delivered again (finding F3)
-          FixF4     \* TRUE: DeliverFrom falls through to Deliver (repaired); FALSE: pinned behaviour (finding F4)
+          FixF4,    \* TRUE: DeliverFrom falls through to Deliver (repaired); FALSE: pinned behaviour (finding F4)
+          FixF15    \* TRUE: an r-send that arrives after the ready quorum for its digest is accepted at once (repaired);
+                    \* FALSE: pinned behaviour, the slot then depends on an r-answer of a party that happens to serve (finding F15)
 
 Party == 0..(N-1)
 Root  == <<>>                      \* channel ID of a fresh object; an ID is the path of setID names
@@ -130,8 +132,11 @@ Handle(st0, me, l, m, out0) ==
          ELSE LET st == [st0 EXCEPT !.seenS = @ \cup {<<tag, l>>}] IN
               IF m.j # l THEN Res(st, out0, NoDl)         \* faked r-send
               ELSE IF Has(st.mbar, tag) /\ st.mbar[tag] # m.b THEN Res(st, out0, NoDl)
-              ELSE Res([st EXCEPT !.mbar = Put(@, tag, m.b)],
-                       out0 \o ToAll(Msg(m.id, m.j, m.s, RECHO, H(m.b))), NoDl)
+              ELSE LET st2  == [st EXCEPT !.mbar = Put(@, tag, m.b)]
+                       out2 == out0 \o ToAll(Msg(m.id, m.j, m.s, RECHO, H(m.b)))
+                   IN IF FixF15 /\ Has(st2.dbar, tag) /\ tag \notin st2.acc /\ H(m.b) = st2.dbar[tag]
+                      THEN DeliverOrBuffer(st2, m, out2)       \* payload after the ready quorum (repair of F15)
+                      ELSE Res(st2, out2, NoDl)
        [] m.a = RECHO ->
          IF \E d \in {x[3] : x \in {y \in st0.ech : y[1] = tag /\ y[2] = l}} : TRUE
          THEN Res(st0, out0, NoDl)
@@ -331,6 +336,11 @@ Integrity == \A i \in Honest : \A x \in Dl(i) :
 
 \* deliveries extend by at most one entry per step; a new delivery carries the current channel ID, and in FIFO
 \* mode the sequence number that was due
+\* a party that knows the agreed digest of a slot and a payload matching it has accepted the slot
+\* (delivered it or buffered it for delivery); needs the accepted set of the F3 repair
+KnownIsAccepted == FixF3 => \A i \in Honest : \A tag \in (DOMAIN ps[i].mbar) \cap (DOMAIN ps[i].dbar) :
+                      H(ps[i].mbar[tag]) = ps[i].dbar[tag] => tag \in ps[i].acc
+
 DeliveryStep ==
   \A i \in Honest :
      \/ delivered'[i] = delivered[i]
